@@ -430,15 +430,13 @@ class Statement(TokenList):
             # The WITH keyword should be followed by either an Identifier or
             # an IdentifierList containing the CTE definitions;  the actual
             # DML keyword (e.g. SELECT, INSERT) will follow next.
+            # The CTE definitions are grouped (their queries are inside
+            # parentheses), so the first DML keyword on statement level is
+            # the one we are looking for. Comments may appear anywhere.
             tidx = self.token_index(token)
-            while tidx is not None:
-                tidx, token = self.token_next(tidx, skip_ws=True)
-                if isinstance(token, (Identifier, IdentifierList)):
-                    tidx, token = self.token_next(tidx, skip_ws=True)
-
-                    if token is not None \
-                            and token.ttype == T.Keyword.DML:
-                        return token.normalized
+            _, dml = self.token_next_by(t=T.Keyword.DML, idx=tidx)
+            if dml is not None:
+                return dml.normalized
 
         # Hmm, probably invalid syntax, so return unknown.
         return 'UNKNOWN'
